@@ -22,6 +22,8 @@ def make_replay(prop_id, key, ob, res):
             raise StopIteration()
         if ob["kind"] == "store_scan":
             raise RuntimeError("syntactic frame obligation: there is no input to replay")
+        if ob["kind"] == "call_order":
+            raise RuntimeError("syntactic calculation-scheme obligation: there is no input to replay")
         from . import e3bridge
         conf = e3bridge.try_concrete_replay(key, ob, res)
         rec.update(conf)
